@@ -21,6 +21,9 @@ def scenarios(ctx):
              policy=dict(p_cb=1.0, p_loss=0.25, maxdelay=8, retries=(0, 0, -1, 1)), world=dict(start_seq="alt", timeout=0.25)),
         dict(name="callbacks-fragments", n=3 if q else 30, nticks=800 if q else 3000, heal_after=500 if q else 2400,
              policy=dict(p_cb=1.0, p_send=0.2, p_loss=0.12, maxdelay=12, lens=[1500, 2451, 2453, 2455, 2457, 2458, 3000, 3479, 5000, 100, 4], retries=(0, -1, 1)), world=dict(start_seq="alt")),
+        # several small sends per frame (they share datagrams), every second one with a callable that compares equal to the others; some callbacks raise
+        dict(name="callbacks-shared-callable", n=3 if q else 16, nticks=700 if q else 2000, heal_after=450 if q else 1600,
+             policy=dict(p_cb=1.0, p_send=0.7, p_loss=0.2, maxdelay=8, lens=[4, 8, 20], retries=(0, 1, 0, -1)), world=dict(start_seq="alt", cb_raise=0.2)),
         # success may only be reported for what the peer accepted - also when the retransmission arrives behind a burst wider than the message window
         dict(name="callbacks-under-bursts", n=3 if q else 10, nticks=800 if q else 1500, heal_after=500 if q else 1100,
              policy=dict(p_cb=1.0, p_send=0.15, p_loss=0.2, retries=(-1, -1, 1), lens=[4, 20, 600, 1500], burst=0.03, burst_lens=(4, 4, 5), burst_retries=(0,), maxdelay=4), world=dict(start_seq="alt")),
